@@ -4,7 +4,9 @@ CONSTANTS
   Gaps <- GapsJitter2
   T = 10
   D = 2
-  MaxEvents = 6
+  MaxEvents = 4
+  MaxFails = 3
+  Backoff = FALSE
   Closed = TRUE
   ObserveCb = TRUE
   TrackQuiet = FALSE
